@@ -85,6 +85,7 @@ type FnCtx struct {
 	err        error
 	trustedSet map[string]bool
 	assertSyms [][]string
+	assertDefs [][]string
 	recSyms    map[string][]string
 	symIndex   map[string][]int
 	symIndexed int
